@@ -41,6 +41,40 @@ func SharedOp(r *Rng, s *jsonapi.Schema, ts []stype, o *Out) string {
 		}
 	}
 	st := ts[r.IntN(len(ts))]
+	if r.chance(1, 10) {
+		// a resource created from the type AS STORED in the schema (Type.New has a pointer
+		// receiver): allowed for a type whose two maps are allocated - creating and using the
+		// resource then has nothing to initialise in the shared type
+		for i := range s.Types {
+			if s.Types[i].Name == st.typ.Name && s.Types[i].Attrs != nil && s.Types[i].Rels != nil {
+				res := s.Types[i].New()
+				res.Set("id", "x")
+				for _, f := range st.typ.Fields() {
+					_ = res.Get(f)
+				}
+				if sr, ok := res.(*jsonapi.SoftResource); ok {
+					_ = sr.Attrs()
+					_ = sr.Rels()
+				}
+				doc := &jsonapi.Document{Data: res, PrePath: "/p"}
+				url := &jsonapi.URL{Fragments: []string{st.typ.Name, "x"}, Params: &jsonapi.Params{Fields: map[string][]string{st.typ.Name: st.typ.Fields()}}}
+				_, _ = jsonapi.MarshalDocument(doc, url)
+				return "Types[i].New"
+			}
+		}
+	}
+	if r.chance(1, 10) {
+		// a collection document with an element that is no resource object: the error one
+		// request gets is its own
+		bad := []string{"7", `"x"`, `{"id":1,"type":"` + st.typ.Name + `"}`, "null", "[]"}[r.IntN(5)]
+		good := `{"id":"1","type":"` + st.typ.Name + `"}`
+		_, err := jsonapi.UnmarshalDocument([]byte(`{"data":[`+good+`,`+bad+`]}`), s)
+		if je, ok := err.(jsonapi.Error); ok {
+			_ = je.Error()
+			_, _ = je.MarshalJSON()
+		}
+		return "UnmarshalDocument(bad element)"
+	}
 	switch r.IntN(11) {
 	case 0:
 		_ = s.GetType(st.typ.Name)
